@@ -53,7 +53,7 @@ Definition pat_eq (a b : pystr * list re) : bool := str_eqb (fst a) (fst b).   (
 Definition o_eq {A} (eq : A -> A -> bool) (a b : option A) : bool := option_eqb eq a b.
 
 (* ---- members that are schemas: the left one comes with its comparison function ---- *)
-Definition cmp := (schema * (schema -> bool))%type.
+Notation cmp := (schema * (schema -> bool))%type (only parsing).
 
 (* x == y where either side may be the marker [mk] (VEllipsis in element lists and key
    tables, VNil for an absent prop): schema vs marker = validate *)
